@@ -1700,3 +1700,27 @@ srun --acctg-freq=<FREQ>;
         assert!(matches!(ValidGrammar::from_grammar(g, Shell::Bash), Ok(_)));
     }
 }
+
+#[cfg(feature = "verif")]
+pub mod verif_hooks {
+    use super::*;
+
+    pub fn is_valid_command_name(command: &str) -> bool {
+        super::is_valid_command_name(command)
+    }
+
+    pub fn make_builtin_specializations(shell: Shell) -> Vec<(Ustr, Ustr)> {
+        super::make_builtin_specializations(shell)
+            .into_iter()
+            .map(|(name, spec)| (name, spec.cmd))
+            .collect()
+    }
+
+    pub fn distribute_descriptions(arena: &mut Vec<Expr>, expr_id: ExprId) -> ExprId {
+        super::distribute_descriptions(arena, expr_id)
+    }
+
+    pub fn propagate_fallback_levels(arena: &mut Vec<Expr>, expr_id: ExprId) -> ExprId {
+        super::propagate_fallback_levels(arena, expr_id)
+    }
+}
